@@ -21,6 +21,7 @@ type CliCase struct {
 	Tree   *ref.Node   `json:"tree"`
 	More   []*ref.Node `json:"more,omitempty"` // further trees of the input stream (other sizes, other tip sets)
 	First  bool        `json:"more_first,omitempty"`
+	ToFile bool        `json:"to_file,omitempty"` // result written with -o file instead of stdout
 	Cmd    string    `json:"cmd"` // outgroup-args | outgroup-file | midpoint | unroot | sort
 	Names  []string  `json:"names,omitempty"`
 	Remove bool      `json:"remove,omitempty"`
@@ -63,7 +64,7 @@ func checkCli(c CliCase) error {
 	case "sort":
 		args = []string{"rotate", "sort"}
 	}
-	return cli.Differential(args, text, files, func() (string, error) {
+	return cli.DifferentialOut(args, text, files, outFlag(c.ToFile), func() (string, error) {
 		out := ""
 		for _, m := range c.stream() {
 			t, err := gt.FromModel(m)
@@ -119,6 +120,7 @@ func TestC05Cli(t *testing.T) {
 				c.More = append(c.More, gen.Tree(t, o))
 			}
 			c.First = rapid.Bool().Draw(t, "morefirst")
+			c.ToFile = rapid.IntRange(0, 2).Draw(t, "tofile") == 0
 			return c
 		},
 		Check: checkCli,
@@ -126,4 +128,11 @@ func TestC05Cli(t *testing.T) {
 			return c.Tree.MaxDegree() > 3 || len(c.Tree.Ch) == 2, []string{"cmd:" + c.Cmd, fmt.Sprintf("remove=%v strict=%v", c.Remove, c.Strict)}
 		},
 	})
+}
+
+func outFlag(toFile bool) string {
+	if toFile {
+		return "-o"
+	}
+	return ""
 }
